@@ -878,28 +878,76 @@ def gen_C08(rng):
     ctx.emit("init " + rand_ctopts(rng))
     d = rand_domain(rng, "D", False, 40, 3)
     ctx.emit(d.decl())
-    sets = [Forest("S%d" % i, d, False, "bool", "mt", rng.choice(RULES_SET), rand_opts(rng)) for i in range(rng.choice([1, 2]))]
+    kind = rng.choice(["bool", "bool", "evp", "mtint"])
+    if kind == "bool":
+        sets = [Forest("S%d" % i, d, False, "bool", "mt", rng.choice(RULES_SET), rand_opts(rng)) for i in range(rng.choice([1, 2]))]
+    elif kind == "evp":
+        sets = [Forest("S0", d, False, "int", "evp", rng.choice(RULES_SET), rand_opts(rng))]
+    else:
+        # integer distances: the library offers saturation only for fully-reduced results
+        sets = [Forest("S0", d, False, "int", "mt", "fr", rand_opts(rng))]
     rels = [Forest("R%d" % i, d, True, "bool", "mt", rng.choice(RULES_REL), rand_opts(rng)) for i in range(rng.choice([1, 2]))]
     for f in sets + rels:
         ctx.emit(f.decl())
-    for rnd in range(rng.randint(1, 3)):
+    prev_rel = None
+    shared_event = None
+    for rnd in range(rng.randint(1, 4)):
         s = "s%d" % rnd
         r = "r%d" % rnd
         fs = rng.choice(sets)
-        parts = ["coll", s, fs.name, "max", "0"]
-        for _ in range(rng.choice([1, 1, 2, 3])):
-            parts += [";"] + rand_pos_set(rng, d, rng.choice([0, 0, 0.3])) + ["=>", "1"]
+        if kind == "bool":
+            parts = ["coll", s, fs.name, "max", "0"]
+            for _ in range(rng.choice([1, 1, 2, 3])):
+                parts += [";"] + rand_pos_set(rng, d, rng.choice([0, 0, 0.3])) + ["=>", "1"]
+        elif kind == "evp":
+            parts = ["coll", s, fs.name, "min", "inf"]
+            for _ in range(rng.choice([1, 1, 2, 3])):
+                parts += [";"] + rand_pos_set(rng, d, rng.choice([0, 0, 0.3])) + ["=>", str(rng.choice([0, 0, 0, 1, 2]))]
+        else:
+            parts = ["coll", s, fs.name, "max", "-1"]
+            for _ in range(rng.choice([1, 1, 2, 3])):
+                parts += [";"] + rand_pos_set(rng, d, rng.choice([0, 0, 0.3])) + ["=>", str(rng.choice([0, 0, 0, 1, 2]))]
         ctx.emit(" ".join(parts))
         ctx.edges[s] = fs
-        fr = rng.choice(rels)
-        gen_rel_minterms(ctx, fr, r, nmax=8, p_dc=rng.choice([0, 0.15, 0.3]), p_same=rng.choice([0.2, 0.5, 0.8]))
+        if prev_rel is not None and rng.random() < 0.6:
+            # a relation that shares nodes with the previous one (stale split / fire cache):
+            # the same first event united with another local event
+            fr = ctx.edges[prev_rel]
+            x = ctx.fresh("x")
+            parts = ["coll", x, fr.name, "max", "0"]
+            for _ in range(rng.choice([1, 1, 2])):
+                pos = []
+                for sz in d.sizes:
+                    q = rng.random()
+                    if q < 0.4:
+                        pos += ["x", "="]
+                    elif q < 0.5:
+                        pos += [str(rng.randrange(sz)), "="]
+                    else:
+                        pos += [str(rng.randrange(sz)), str(rng.randrange(sz))]
+                parts += [";"] + pos + ["=>", "1"]
+            ctx.emit(" ".join(parts))
+            ctx.edges[x] = fr
+            base = shared_event if (shared_event and ctx.edges.get(shared_event) is fr and rng.random() < 0.7) else prev_rel
+            ctx.emit("apply %s %s %s %s %s" % (r, fr.name, rng.choice(["union", "union", "union", "diff"]), base, x))
+            ctx.edges[r] = fr
+        else:
+            fr = rng.choice(rels)
+            gen_rel_minterms(ctx, fr, r, nmax=8, p_dc=rng.choice([0, 0.15, 0.3]), p_same=rng.choice([0.2, 0.5, 0.8]))
+            if shared_event is None:
+                shared_event = r
+        prev_rel = r
         res = []
-        algos = ["reach_fs", "reach_nofs", "reach_sat"] if rng.random() < 0.7 else \
-                ["rreach_fs", "rreach_nofs", "rreach_sat"]
+        fwd = rng.random() < 0.7
+        pre = "" if fwd else "r"
+        if kind == "bool":
+            algos = [pre + "reach_fs", pre + "reach_nofs", pre + "reach_sat"]
+        else:
+            algos = [pre + "reach_nofs", pre + "reach_sat", pre + "reach_nofs"]
         if fr.rule != "ir":
             # known finding (see known_findings.json): saturation mis-handles relation
             # forests that are not identity-reduced; probed by corpus/C08/*.script
-            algos = algos[:2] + [algos[0]]
+            algos = [a.replace("reach_sat", "reach_nofs") for a in algos]
         rng.shuffle(algos)
         for al in algos:
             n = ctx.fresh()
@@ -1253,6 +1301,63 @@ def gen_C17(rng):
             ctx.emit("audit %s" % f)
         ctx.emit("cleanup")
     return ctx.text()
+
+
+def gen_heavy_ct(rng):
+    """many operations on larger sets with results and operands released all the
+    time: thousands of compute-table entries, many of them stale, long bucket
+    chains.  Too large for the tree model: observations are digests, compared
+    across compute-table configurations (and the unchanged cache-free run)."""
+    L = ["init", "quiet 1"]
+    k = rng.choice([5, 6])
+    sz = rng.choice([3, 4])
+    L.append("domain D " + " ".join([str(sz)] * k))
+    nf = rng.choice([1, 2])
+    for i in range(nf):
+        L.append("forest F%d D set bool mt %s %s" % (i, rng.choice(RULES_SET), rng.choice(["", "del=pess", "del=opt"])))
+    names = []
+
+    def newset(name):
+        f = rng.randrange(nf)
+        parts = ["coll", name, "F%d" % f, "max", "0"]
+        for _ in range(rng.randint(3, 12)):
+            pos = [("x" if rng.random() < 0.25 else str(rng.randrange(sz))) for _ in range(k)]
+            parts += [";"] + pos + ["=>", "1"]
+        L.append(" ".join(parts))
+
+    for i in range(8):
+        newset("s%d" % i)
+        names.append("s%d" % i)
+    cnt = 0
+    for rnd in range(rng.randint(8, 14)):
+        made = []
+        for _ in range(rng.randint(8, 20)):
+            a, b = rng.choice(names), rng.choice(names)
+            n = "t%d" % cnt
+            cnt += 1
+            L.append("apply %s F%d %s %s %s" % (n, rng.randrange(nf), rng.choice(SETOPS), a, b))
+            made.append(n)
+            if rng.random() < 0.5:
+                names.append(n)
+        # release most results and some operands, build fresh operands
+        for n in made:
+            if rng.random() < 0.8:
+                L.append("release %s" % n)
+                if n in names:
+                    names.remove(n)
+        for _ in range(rng.randint(1, 4)):
+            if len(names) > 4:
+                v = rng.choice(names)
+                L.append("release %s" % v)
+                names.remove(v)
+        for _ in range(rng.randint(1, 3)):
+            n = "s%d" % (100 + cnt)
+            cnt += 1
+            newset(n)
+            names.append(n)
+    for n in names:
+        L.append("show %s" % n)
+    return "\n".join(L) + "\n"
 
 
 CT_STYLES = ["mc", "mu", "oc", "ou"]
